@@ -242,7 +242,7 @@ def cases(draw):
     def expr(d, params):
         r = n(100)
         if d <= 0 or r < 28:
-            return pick(NAMES + params + ['1', '2', '[1, 2]', '"s"'])
+            return pick(NAMES + params + ['1', '2', '[1, 2]', '"s"', 'None', 'None'])
         if r < 42:
             return f'({expr(d - 1, params)} + {expr(d - 1, params)})'
         if r < 58:
@@ -271,8 +271,11 @@ def cases(draw):
 
     def stmt():
         r = n(100)
-        if r < 28:
+        if r < 24:
             return f'{pick(NAMES)} = {expr(2, [])}'
+        if r < 28:
+            return pick(['g = x => 1 if x <= 1 else g(x - 1) * x\ng(4)', 'g = (x, y) => x if y <= 0 else g(x + y, y - 1) + y\ng(0, 3)',
+                         'call(x => x, None)', 'g = k => k\n[g(None), g(1)]', 'x = None\ncall(y => x, 1)', 'len = None\nlen'])
         if r < 40:
             ps = sample(NAMES, 1 + n(2))
             head = ps[0] if len(ps) == 1 else '(' + ', '.join(ps) + ')'
